@@ -1,3 +1,4 @@
 INIT GInit
 NEXT GNext
-CONSTANT ValidateTTL = TRUE
+CONSTANTS ValidateTTL = TRUE
+  FamilyCheck = TRUE
